@@ -174,6 +174,18 @@ def run(ctx):
         else:
             r.ok('add_fragment_metadata(instance, fragment, destination_idx, sizes from prepare, instance ct, checksum on) after the backend, before copy-out',
                  func=f.name, loc=a.loc, facts={'args': args})
+    # the encode side is the sibling: it must hand the serializer the instance's checksum type as it is, too
+    fe_ = P.fn('finalize_fragments_after_encode')
+    Ce_ = Canon(P, fe_)
+    for a_ in [i for i in fe_.insts() if i.op == 'call' and i.callee == '@add_fragment_metadata']:
+        ctv = Ce_.val(strip_int_casts(fe_, a_.ops[5]))
+        inst = f'finalize_fragments_after_encode: checksum type handed to add_fragment_metadata at line {a_.line}'
+        if re.search(r'\.args\.uargs\.ct$', ctv):
+            r.ok(inst + ' is the instance\'s ct, as in reconstruct', func=fe_.name, loc=a_.loc)
+        else:
+            r.fail(inst, func=fe_.name, sig=f'encode stamps checksum type {ctv[:50]}', loc=a_.loc,
+                   msg=f'encode stamps the checksum type {ctv} while reconstruct stamps the instance\'s ct as configured: a rebuilt fragment differs from the encoded one in '
+                       'its chksum_type byte (and metadata checksum) whenever the two disagree')
     # copy length = fragment_len
     for cpx in copies:
         if C.val(strip_int_casts(f, cpx.ops[2])) == f'arg{li}':
